@@ -635,6 +635,9 @@ func (h *hist) queryNN() {
 			c.Count("nn.after_root_collapse")
 		}
 		d["k"] = k
+		if c.WantSample() && k > 1 && depth >= 2 {
+			c.Sample(map[string]interface{}{"min": h.min, "max": h.max, "objects": size, "tree_depth": depth, "operations_before_query": len(h.log), "query_point": []float64{p.X, p.Y}, "k": k, "k_smallest_distances": dists[:minInt(k, size)]})
+		}
 		var got []geom.Geom
 		if c.Guard("NearestNeighbors", d, func() { got = h.tree.NearestNeighbors(k, p) }) {
 			h.failed = true
@@ -702,3 +705,10 @@ func (h *hist) queryNN() {
 }
 
 var _ = gen.Dump
+
+func minInt(a, b int) int {
+	if a < b {
+		return a
+	}
+	return b
+}
